@@ -270,9 +270,9 @@ Proof. exact bad_ack_witness. Qed.
     entries of log i in its window at that moment.  [KRes cl c0] under (L2, f, i): a Connect of
     [cl] restored that request on the fresh link L2 with cursor offset [c0].  [KEnd] is not part of
     [ktrace]. *)
-From Rumqtt Require Import Router.Wake Router.WakeCor Router.ExactInv Router.Inv.
-From Rumqtt Require Import Router.TraceRun Router.TraceRunThm Router.TraceRunExamples
-                           Router.TraceResume Router.TraceResumeWin Router.TraceResumeEnd Router.TraceResumeThm Router.TraceResumeExamples.
+From Rumqtt Require Import Router.Wake Router.WakeCor Router.ExactInv Router.Inv Router.NoPanic.
+From Rumqtt Require Import Router.WakeExamples Router.TraceRun Router.TraceRunThm Router.TraceRunExamples.
+From Rumqtt Require Import Router.TraceResume Router.TraceResumeWin Router.TraceResumeEnd Router.TraceResumeThm Router.TraceResumeExamples.
 From Rumqtt Require Import Router.Model Router.RunDefs.
 
 (** (a) the resume point.  Every resume marker is preceded by the end marker of the SAME client
@@ -380,7 +380,7 @@ Proof. exact c08_run_away_complete_thm. Qed.
     number of links when the Connect starts) has no resume marker anywhere in the run, and every
     key of it starts with a subscribe marker. *)
 Theorem c08_run_clean_starts_empty_partial : forall (cfg : config) (st0 : rstate) (ops1 : list (list oracle * rop))
-    (orc : list oracle) (c : conn_req) (ops2 : list (list oracle * rop)) (st : rstate) (tr : list dev),
+    (orc : list oracle) (c : connect_req) (ops2 : list (list oracle * rop)) (st : rstate) (tr : list dev),
   cfg_ok cfg -> cf_max_outgoing cfg < B62 -> init cfg = Ok st0 -> ops_wf (ops1 ++ (orc, OpConnect c) :: ops2) ->
   run_d st0 (ops1 ++ (orc, OpConnect c) :: ops2) = Ok (st, tr) -> Bounded st ->
   cr_clean c = true ->
@@ -429,3 +429,19 @@ Theorem c08_run_example_clean :
   nth_error cx_ops (length rx_away) = Some ([], wx_conn 114) /\
   lenN (r_links (tx_st (wx_plain rx_away))) = 2.
 Proof. exact clean_run_example. Qed.
+
+(** why (b), (c) carry the extra hypothesis: a persistent client holding "t" and "$share/g/t" (one
+    log, one window, one retransmission cursor): its three plain forwards (packet ids 1, 2, 3) are
+    all acknowledged, the window holds the three shared forwards, the plain request is rewound to
+    offset 0 and after the reconnect the plain key is sent 0, 1, 2 again *)
+Theorem c08_run_shared_same_log_witness :
+  let st := tx_st sx_ops in let tr := tx_tr sx_ops in
+  tx_run sx_ops = Ok (st, tr) /\
+  (exists st0, run_hyps tx_cfg st0 sx_ops st tr /\ always_b (noshare_b 0 0) st0 sx_ops = false) /\
+  map fwd_pk (ktrace (0, [116], 0) tr) = [None; Some (0, 1); Some (1, 2); Some (2, 3)] /\
+  window_of (tx_st (wx_plain sx_pre)) 0 = [(4, 0, Some 0); (5, 0, Some 1); (6, 0, Some 2)] /\
+  ends_of tr = [(0, 0, [0; 1; 2])] /\
+  map evshort tr = [(0, 0, (2, 0, 0)); (0, 0, (0, 0, 0)); (0, 0, (0, 1, 0)); (0, 0, (0, 2, 0));
+                    (0, 0, (4, 0, 3));
+                    (0, 2, (3, 0, 0)); (0, 2, (0, 0, 0)); (0, 2, (0, 1, 0)); (0, 2, (0, 2, 0))].
+Proof. exact share_rewind_witness. Qed.
